@@ -27,6 +27,7 @@ t_AORD == Hdr.aord
 t_KIND == Hdr.kind
 t_REGISTERED == {Hdr.registered[i] : i \in DOMAIN Hdr.registered}
 t_HOLDOPS == {Hdr.holdops[i] : i \in DOMAIN Hdr.holdops}
+t_HOOKED == Hdr.hooked
 t_DECI == Hdr.deci
 t_PRICE == Hdr.price
 t_PDEC == Hdr.pdec
